@@ -101,13 +101,19 @@ Definition m_rename (m : mstate) (o n : str) : mstate * obs :=
           | inr e => (m3, VErr (LinkErr o n (err_cls e)))
           | inl hn =>
             (* io.Copy: read everything, one Write when there is something *)
-            let '(so3, ho1, _) := f_data (fs_at m3 oi) ho in
+            let '(so3, ho1, okd) := f_data (fs_at m3 oi) ho in
             let data := cell so3 (h_cell ho1) in
             let m4 := set_fs m3 oi so3 in
-            let '(sn2, _, _, we) := write_at (fs_at m4 ni) hn data 0%Z in
+            (* a source whose data cannot be loaded: the first Read fails, nothing is written *)
+            let '(sn2, we) :=
+              if negb okd then (fs_at m4 ni, Some (PathErr osub EOTHER))
+              else let '(sn2, _, _, we) := write_at (fs_at m4 ni) hn data 0%Z in (sn2, we) in
             let m5 := set_fs m4 ni sn2 in
             match we with
-            | Some e => (m5, VErr (LinkErr o n (err_cls e)))
+            | Some e =>
+              (* the copy failed: the (partly written) destination is removed, whatever that Remove answers *)
+              let '(sn2', _) := kv_remove (fs_at m5 ni) nsub in
+              (set_fs m5 ni sn2', VErr (LinkErr o n (err_cls e)))
             | None =>
               let '(sn3, ce) := kv_chmod (fs_at m5 ni) nsub mode in
               let m6 := set_fs m5 ni sn3 in
@@ -181,3 +187,31 @@ Definition C06_route_case := (mtable * list (str * nat * str))%type.
 Definition C06_route_check (c : C06_route_case) : bool :=
   forallb (fun r => let '(p, i, sub) := r in
                     let '(i', sub') := mount_route (fst c) p in Nat.eqb i i' && str_eqb sub sub') (snd c).
+
+(* ---- a Rename across two mounts with one failing store call in a constituent (C14's fault model) ---- *)
+Definition mexec (m : mstate) (ops : list op) : mstate := fold_left (fun m o => fst (mstep m o)) ops m.
+Definition fault_in (m : mstate) (i k : nat) : mstate :=
+  set_fs m i (with_fault (fs_at m i) (Some (st_calls (fs_at m i) + k)%nat)).
+Definition bytes_at (m : mstate) (i : nat) (p : str) : option (list N) :=
+  match lookup (st_store (fs_at m i)) p with
+  | Some r => Some (cell (fs_at m i) (r_cell r))
+  | None => None
+  end.
+Definition two_mounts : mstate :=
+  mexec (minit [S "a"; S "b"]) [WriteFile (S "a/x") [1;2;3]%N 420%N; WriteFile (S "b/old") [9;9]%N 384%N].
+
+(* (destination exists?, constituent whose store fails, which of its next calls, (succeeded?, source bytes, destination bytes)) *)
+Definition C06_xfault_case := (bool * nat * nat * (bool * option (list N) * option (list N)))%type.
+Definition optbytes_eqb (a b : option (list N)) : bool :=
+  match a, b with
+  | Some x, Some y => list_eqb N.eqb x y
+  | None, None => true
+  | _, _ => false
+  end.
+Definition C06_xfault_check (c : C06_xfault_case) : bool :=
+  let '(old, i, k, (ok, sb, db)) := c in
+  let dname := if old then S "old" else S "new" in
+  let r := m_rename (fault_in two_mounts i k) (S "a/x") (S "b/" ++ dname) in
+  Bool.eqb ok (match snd r with VOk => true | _ => false end)
+  && optbytes_eqb (bytes_at (fst r) 1 (S "x")) sb
+  && optbytes_eqb (bytes_at (fst r) 2 dname) db.
